@@ -156,7 +156,53 @@ def gen(rng, tier):
             lines.append("S.names cvs=%s biases=%s" % (",".join(cvs), ",".join(biases)))
             lines.append("m.counts")
         cases.append({"lines": lines, "meta": {"queries": queries, "ncmd": ncmd, "expect_counts": expect}, "nontrivial": True})
+    # a scripted bias (the user's force callback: `cv colvar x addforce F`, `cv addenergy E`) next to a built-in one: the engine must
+    # get the energy and forces of both, whether the callback runs before or after the built-in biases
+    for k in range(6 if tier == "quick" else 40):
+        after = k % 2 == 1
+        smp = ["none", "cvcs"][(k // 2) % 2]
+        kf = rng.choice([2.0, 10.0]); c0 = rng.uniform(-1, 1); w = 0.5
+        fs = rng.uniform(-3, 3); es = rng.uniform(0.5, 4.0)
+        two = k % 3 == 2
+        conf = "scriptedColvarForces on\nscriptingAfterBiases %s\n" % ("on" if after else "off") + inj_cv("x0", 0, -3.0, 3.0, w)
+        bconf = "harmonic {\n name hb\n colvars x0\n forceConstant %s\n centers %s\n}\n" % (num(kf), num(c0))
+        if two:
+            bconf += "linear {\n name lb\n colvars x0\n forceConstant 1.5\n centers 0.25\n}\n"
+        lines = ["m.new 1", "M.noclock", "m.opt smp %s" % smp, "m.opt threads 2", "m.opt scriptlast %d" % ((k // 4) % 2), cfg(conf), cfg(bconf),
+                 "m.callback cv colvar x0 addforce %s ; cv addenergy %s" % (num(fs), num(es))]
+        steps = []
+        x = rng.uniform(-1.5, 1.5)
+        for t in range(rng.randint(4, 8)):
+            x += rng.uniform(-0.4, 0.4)
+            lines += [pos(0, 0.0, 0.0, x), "m.step"]; sl = len(lines)
+            lines.append("m.forces"); fl = len(lines)
+            lines.append("m.script cv getenergy"); ql = len(lines)
+            steps.append({"x": x, "step": sl, "forces": fl, "q": ql})
+        cases.append({"lines": lines, "meta": {"callback": {"after": after, "smp": smp, "k": kf, "c": c0, "w": w, "fs": fs, "es": es, "two": two, "steps": steps},
+                                               "queries": [], "ncmd": 0, "expect_counts": []}, "nontrivial": True})
     return cases
+
+
+def callback_oracle(cb, out):
+    for i, st in enumerate(cb["steps"]):
+        x = st["x"]; w = cb["w"]
+        e = 0.5 * cb["k"] / (w * w) * (x - cb["c"]) ** 2 + cb["es"]
+        f = -cb["k"] / (w * w) * (x - cb["c"]) + cb["fs"]
+        if cb["two"]:
+            e += 1.5 / w * (x - 0.25); f += -1.5 / w
+        how = "callback %s the built-in biases, smp %s" % ("after" if cb["after"] else "before", cb["smp"])
+        rc = out.get((st["step"], "rc", 1))
+        if rc != ["i0"]:
+            return ["step %d with a force callback (%s) failed" % (i, how)]
+        ev = vals(out, st["step"], "energy")
+        if ev is None or abs(ev[0] - e) > 1e-9 * max(1.0, abs(e)):
+            return ["step %d (%s): the engine was handed the energy %r; built-in biases + the energy added by `cv addenergy` give %r (the scripted bias adds %r)"
+                    % (i, how, ev, e, cb["es"])]
+        fv = vals(out, st["forces"], "f0")
+        if fv is None or abs(fv[2] - f) > 1e-9 * max(1.0, abs(f)):
+            return ["step %d (%s): the atom got the z-force %r; built-in biases + `cv colvar x0 addforce` give %r" % (i, how, fv, f)]
+        r = out.get((st["q"], "res", 1)) or out.get((st["q"], "result", 1))
+    return []
 
 
 def distribution(cases):
@@ -184,6 +230,8 @@ def oracle(case, out):
     """numbers returned by script queries = the numbers the module hands to the engine at that step"""
     viol = []
     L = case["lines"]
+    if case["meta"].get("callback"):
+        return callback_oracle(case["meta"]["callback"], out)
     # translator cross-check: the regenerated table equals the table of the running library
     for i, line in enumerate(L, 1):
         if line == "s.table":
